@@ -255,5 +255,13 @@ C06_LossSafe == (Quiescent /\ LossDomain) => \A pid \in PIDs :
 \* is the only shared state, hence the side condition "PAT before PMT" in Start.
 
 View == <<cur, gcc, nunits, patDone, npk, nfault, dropRun, acc, pm, accC, pmC, hit, [i \in DOMAIN units |-> <<units[i].pid, units[i].tmpl, units[i].early>>]>>
-ExportEdge == PrintT("SCN " \o ToJson([units |-> units', pkts |-> hist', pmtpids |-> {p \in PIDs : Roles[p] = "pmt"}]))
+\* what the model says the clean demuxer delivers in total (deliveries so far + EOF drain), for transitions that end in a quiescent state:
+\* replayed into the real Demuxer and compared delivery by delivery (model -> code conformance, reported as drift)
+QuiescentP == \A p \in PIDs : cur'[p] = None
+PredP == IF QuiescentP
+         THEN LET f == deliveredC' \o DrainFrom(units', accC', pmC', PIDs, nreadC' + 1)
+              IN [i \in DOMAIN f |-> <<f[i].pid, f[i].k, f[i].u, f[i].s, f[i].len>>]
+         ELSE <<>>
+ExportEdge == PrintT("SCN " \o ToJson([units |-> units', pkts |-> hist', pmtpids |-> {p \in PIDs : Roles[p] = "pmt"},
+                                         quiescent |-> QuiescentP, pred |-> PredP]))
 =============================================================================
